@@ -2,3 +2,4 @@ import RaftWal.Props.C04
 #print axioms RaftWal.C04.spec_head_truncation
 #print axioms RaftWal.C04.spec_tail_truncation
 #print axioms RaftWal.C04.truncations_refine_spec
+#print axioms RaftWal.C04.files_deleted_only_after_commit
